@@ -256,10 +256,11 @@ pub fn gen_file(t: &mut Tape, fmt: Fmt, game: &str, body_stmts: usize) -> GenFil
             let nentries = 1 + t.below(3);
             let mut out = String::new();
             let mut next_script = 0;
+            // the id the next sprite gets when it has no explicit one: automatic numbering continues across entries
+            let mut next_id = 0usize;
             for e in 0..nentries {
                 let nsprites = t.below(5);
                 let mut sprites = vec![];
-                let mut next_id = 10 * e;
                 for s in 0..nsprites {
                     // explicit ids only ever skip forwards, so no two different sprites of an entry share an id
                     // (the reader keeps one sprite per id and warns)
